@@ -103,14 +103,14 @@ def pull (t : Tx) : Tx × Pull :=
         else
           ({ t with msg := some rest' }, .octet c)
 
-/-- `n` calls of `sercomm_drv_pull`, stopping at the first one that returns 0; the octets obtained
-and whether the last call returned 0 / faulted -/
-def pullN : Nat → Tx → Tx × List Nat × Pull
-  | 0, t => (t, [], .octet 0)
+/-- up to `n` calls of `sercomm_drv_pull`, stopping at the first one that does not return an octet:
+the octets obtained -/
+def pullN : Nat → Tx → Tx × List Nat
+  | 0, t => (t, [])
   | n + 1, t =>
     match pull t with
-    | (t', .octet c) => let (t'', cs, r) := pullN n t'; (t'', c :: cs, r)
-    | (t', r) => (t', [], r)
+    | (t', .octet c) => let (t'', cs) := pullN n t'; (t'', c :: cs)
+    | (t', _) => (t', [])
 
 /-! ## Receive side -/
 
